@@ -560,3 +560,67 @@ def lookups_agree_on_escaped_paths(tier, seed):
 
 
 BOUNDED = list(globals().get("BOUNDED", [])) + [lookups_agree_on_escaped_paths]
+
+
+# ------------------------------------------------------------------------------------------------- path-level and operation-level declarations are resolved equally deep
+# A parameter may be declared on the path item or on the operation; both spellings are the operation's effective input. "References resolved at any depth": whatever nesting
+# budget the operation's own definition is resolved with (_resolve_operation), the path-level parameters get the SAME budget - stated as a relation between the two
+# functions (not as a number), so the budget itself may change freely.
+def _budget_resolve_all(it, obj, a, k):
+    level = a[1] if len(a) > 1 else k.get("recursion_level", 0)
+    it.ghost["levels"] = it.ghost.get("levels", []) + [level]
+    return ("resolved", a[0])
+
+
+R.nominal_methods["spec:BudgetResolver"] = {"resolve_all": _budget_resolve_all}
+
+
+def _operation_budget(it, schema):
+    """The nesting budget _resolve_operation asks the resolver for (the real method, run on the same schema object)."""
+    from pyvc.verify import locate
+
+    before = list(it.ghost.get("levels", []))
+    _, _, fn = locate(it, OAS + "BaseOpenAPISchema._resolve_operation")
+    saved = it.top_target
+    it.top_target = OAS + "BaseOpenAPISchema._resolve_operation"  # the real body, not the call-site stub of it
+    try:
+        it.call_function(fn, [schema, {"responses": {}}], {})
+    finally:
+        it.top_target = saved
+    if len(it.ghost["levels"]) != len(before) + 1:
+        raise OutOfSubset("_resolve_operation did not ask the resolver exactly once")
+    level = it.ghost["levels"][-1]
+    it.ghost["levels"] = before
+    return level
+
+
+R.spec_funcs["operation_budget"] = _operation_budget
+_SchemaWithResolver = lambda: Obj(OAS + "OpenApi30", resolver=Obj("spec:BudgetResolver"))
+R.contract(
+    OAS + "BaseOpenAPISchema._resolve_shared_parameters",
+    variant="budget",
+    prop="C08",
+    args={"self": _SchemaWithResolver(), "path_item": DictOf(optional={"parameters": ListOf(Opq("RawParameter"), [0, 1, 2]), "get": Const({"responses": {}})})},
+    ghost={"levels": []},
+    raises=[],
+    ensures={
+        "the_path_level_parameters_are_what_the_resolver_made_of_them": "result == ('resolved', path_item.get('parameters', [])) and length(ghost('levels')) == 1",
+        "resolved_as_deep_as_the_operation_itself": "ghost('levels')[0] == operation_budget(self)",
+    },
+    replayable=False,
+)
+R.contract(
+    OAS + "BaseOpenAPISchema._resolve_operation",
+    variant="budget",
+    prop="C08",
+    args={"self": _SchemaWithResolver(), "operation": DictOf(required={"responses": Const({})}, optional={"parameters": ListOf(Opq("RawParameter"), [0, 1])})},
+    ghost={"levels": []},
+    raises=[],
+    ensures={
+        "the_operation_is_what_the_resolver_made_of_it": "result == ('resolved', operation) and length(ghost('levels')) == 1",
+        # some nesting budget is left: a reference inside the operation is followed, not pruned at once (InliningResolver.resolve_all: followed while level < limit)
+        "references_inside_the_operation_are_followed": "ghost('levels')[0] < RECURSION_DEPTH_LIMIT()",
+    },
+    replayable=False,
+)
+R.spec_funcs["RECURSION_DEPTH_LIMIT"] = lambda it: it.module_get(__import__("pyvc.extract", fromlist=["load_module"]).load_module("schemathesis.specs.openapi.references"), "RECURSION_DEPTH_LIMIT")
